@@ -65,6 +65,23 @@ def run(ctx):
         if not held:
             run.finding(Finding(R1, fid, "OutputData.status written with %s outside the status-writer table" % sorted(writers[fid]), site=db.fns[fid].loc()))
 
+    mw = ctx.fn(OWNER + "create_mwixnet_req")
+    if mw:
+        sinks_mw = {b for b, t in mw.calls() if (t.get("f") or "") == c.WOB + "lock_output" or (t.get("f") or "").endswith("mwixnet::onion::create_onion")}
+        ok_edges = set()
+        for g in [mw]:
+            fl_ = vf.get_flow(g)
+            for x in cfg.comparisons(g):
+                if x.op not in ("Eq", "Ne"):
+                    continue
+                lo, ro = fl_.of_operand(x.l) | vf.producers(g, x.l), fl_.of_operand(x.r) | vf.producers(g, x.r)
+                for a, b_ in ((lo, ro), (ro, lo)):
+                    if vf.has_field(a, OD, "status") and ("agg", OS, "Unspent") in b_:
+                        ok_edges |= (x.true_edges if x.op == "Eq" else x.false_edges)
+        h_mw = bool(sinks_mw) and bool(ok_edges) and cfg.must_pass(mw, ok_edges, sinks_mw)[0]
+        run.instance(R1, {"fn": "owner::create_mwixnet_req", "obligation": "a swap request is built (and the output locked) only for an output whose status is Unspent", "sinks": len(sinks_mw)}, held=h_mw)
+        if not h_mw:
+            run.finding(Finding(R1, mw.id, "create_mwixnet_req never looks at the status of the output it is asked to swap: an output that a pending send has reserved gets a second live spend (and is 'locked' again)", site=mw.loc()))
     R2 = "C03.R2"
     run.rule(R2, "a reservation re-checks the record it reserves (status of the freshly read output)", floor=1)
     from .shared import reservation_recheck
@@ -86,6 +103,14 @@ def run(ctx):
         run.instance(R3, {"fn": pp.short(fid), "obligation": "an existing %s entry with this slate id => Err before any effect" % ty, "found": info}, held=held)
         if not held:
             run.finding(Finding(R3, fid, "no duplicate check (existing %s entry for this slate id) before the step's effects" % ty, site=f.loc()))
+    # ... nor a payment that was confirmed and then reorganised away (its entry is TxReverted until it is mined again)
+    frx0 = ctx.fn(FOREIGN + "receive_tx")
+    if frx0:
+        from .shared import replay_guard
+        held, info = replay_guard(ctx, R3, frx0, "TxReverted")
+        run.instance(R3, {"fn": "foreign::receive_tx", "obligation": "an existing TxReverted entry with this slate id => Err before any effect", "found": info}, held=held)
+        if not held:
+            run.finding(Finding(R3, frx0.id, "a payment whose entry is TxReverted (confirmed once, reorganised away) is received again when the same slate is delivered once more: two entries and two outputs for one slate id", site=frx0.loc()))
     # ... nor is a cancelled receive received again
     frx = ctx.fn(FOREIGN + "receive_tx")
     if frx:
